@@ -8,7 +8,7 @@ EXPLANATION = (
     "event set must be left as it was found: the lower bound used by the add guard must not have been advanced and a same-instant "
     "event taken from the front of the FIFO must go back to the front — today the fetch + generic add put-back violates both "
     "(KNOWN FINDING F4, keyed by that call site); (R3) the limit path writes neither the clock nor the dispatched-event counter "
-    "(a paused runtime reports the last dispatched event). Decides these necessary conditions only; not equivalence over all step schedules.")
+    "(a paused runtime reports the last dispatched event); (R4) after fetching, stop-or-dispatch depends on limit.applies alone. Decides these necessary conditions only; not equivalence over all step schedules.")
 ASSUMPTIONS = ["C11.R1/R2 (limit tables and ordinal) hold"]
 USES_B = True
 
